@@ -98,6 +98,13 @@ func sensitivity(names []string) int {
 				names = append(names, e.Name())
 			}
 		}
+		// behaviour-preserving refactorings: the check must stay silent
+		rd, _ := os.ReadDir(filepath.Join(verifDir, "refactorings"))
+		for _, e := range rd {
+			if strings.HasSuffix(e.Name(), ".diff") {
+				names = append(names, "refactorings/"+e.Name())
+			}
+		}
 		// seeded (sub-agent) changes
 		sd, _ := os.ReadDir(filepath.Join(verifDir, "seeded"))
 		for _, e := range sd {
@@ -138,7 +145,7 @@ func sensitivity(names []string) int {
 		wg.Wait()
 		missed := 0
 		for _, l := range lines {
-			if strings.Contains(l, " MISSED") || strings.Contains(l, " exit2") || strings.Contains(l, "(no result)") {
+			if strings.Contains(l, " MISSED") || strings.Contains(l, " exit2") || strings.Contains(l, "(no result)") || strings.Contains(l, "FALSE-ALARM") {
 				missed++
 			}
 		}
@@ -157,6 +164,8 @@ func sensitivity(names []string) int {
 		var patch string
 		if strings.HasPrefix(name, "seeded/") {
 			patch = filepath.Join(verifDir, name, "patch.diff")
+		} else if strings.HasPrefix(name, "refactorings/") {
+			patch = filepath.Join(verifDir, name)
 		} else {
 			patch = filepath.Join(mdir, name)
 		}
@@ -206,7 +215,15 @@ func sensitivity(names []string) int {
 		if expect == "equivalent" && code == 0 {
 			verdict = "equivalent(ok)"
 		}
-		if verdict == "MISSED" || verdict == "exit2" {
+		if expect == "pass" {
+			switch code {
+			case 0:
+				verdict = "silent(ok)"
+			case 1:
+				verdict = "FALSE-ALARM"
+			}
+		}
+		if verdict == "MISSED" || verdict == "exit2" || verdict == "FALSE-ALARM" {
 			missed++
 		}
 		classes := []string{}
